@@ -178,33 +178,25 @@ def _add_bound(bounds, lit):
 
 def atoms_agree(texts, env) -> bool:
     """does every atom occurring in the texts, taken ALONE, evaluate in env as packaging evaluates it?  (atoms on `extra` are skipped:
-    they involve no version)  The recorded defect nonfinal-env is about COMBINATIONS only; an atom that already disagrees alone is new."""
+    they involve no version)  The recorded defect nonfinal-env is about COMBINATIONS only; an atom that already disagrees alone is new.
+    The texts may be descriptions of derived operands ("[child ... of the left operand] |& [...]"), so atoms are found by pattern."""
+    import re
     from packaging.markers import Marker
+    ops = r"(?:~=|===|==|!=|<=|>=|<|>|not\s+in|in)"
     seen = set()
-
-    def walk(node):
-        if isinstance(node, tuple):
-            yield node
-        elif isinstance(node, list):
-            for x in node:
-                yield from walk(x)
-
     for t in texts:
         if not t:
             continue
-        try:
-            tree = Marker(t)._markers
-        except Exception:  # noqa: BLE001   (a library rendering packaging cannot read: not this class)
-            return False
-        for lhs, op, rhs in walk(tree):
-            atom = f"{lhs.serialize()} {op.serialize()} {rhs.serialize()}"
-            if atom in seen or "extra" in (getattr(lhs, "value", ""), getattr(rhs, "value", "")):
+        atoms = [f'{n} {o} "{v}"' for n, o, v in re.findall(r'\b([a-z_]+)\s*(' + ops[3:-1] + r')\s*"([^"]*)"', t)]
+        atoms += [f'"{v}" {o} {n}' for v, o, n in re.findall(r'"([^"]*)"\s*(' + ops[3:-1] + r')\s*([a-z_]+)\b', t)]
+        for atom in atoms:
+            if atom in seen or re.search(r"\bextra\b", atom):
                 continue
             seen.add(atom)
             pe = {k: v for k, v in env.items() if isinstance(v, str)}
             try:
                 exp = Marker(atom).evaluate(pe)
-            except Exception:  # noqa: BLE001
+            except Exception:  # noqa: BLE001   (not an atom after all, or undefined for the reference)
                 continue
             try:
                 got = parse(atom).evaluate(dict(env))
